@@ -42,9 +42,12 @@ pub fn run(t: &[&str]) -> String {
             Err(e) => Some(format!("{}:e{}", id, err_kind(&e))),
         })
         .collect();
+    // when the whole table lies below the cap the iterator must be EXHAUSTED after the expected items
+    // (one more item is requested: an extra item, or any item from an all-empty table, is a difference)
+    let whole = b.module_count() <= limit;
     let got: Vec<String> = b
         .iter_modules()
-        .take(expect.len())
+        .take(expect.len() + if whole { 1 } else { 0 })
         .map(|r| match r {
             Ok(m) => format!("{}:m{}", m.id(), if m.data().is_empty() { "".into() } else { to_hex(m.data()) }),
             Err(e) => format!("e{}", err_kind(&e)),
